@@ -125,6 +125,52 @@ def explore(ctx, then, prefixes, label, sig, orders=('forward', 'reverse')):
                 'processes': len(jobs)})
 
 
+def explore_orders(ctx, label, sig, keep=None, per_class=3, orders=('forward', 'reverse', 'byhash')):
+    """Every accepted corpus seed of every class, observed (dump + compose digest) (a) with only the seeds of its own
+    class parsed before it, one pristine process per class, and (b) in one pristine process per global order over
+    all classes.  The answer for an input must be the same everywhere."""
+    import multiprocessing
+    prefixes = class_prefixes(keep, per_class)
+    names = sorted(prefixes)
+    alone_jobs = [([], [it + ['dump'] for it in prefixes[q]]) for q in names]
+    every = [it + ['dump'] for q in names for it in prefixes[q]]
+    seqs = []
+    for o in orders:
+        if o == 'forward':
+            seqs.append(every)
+        elif o == 'reverse':
+            seqs.append(every[::-1])
+        else:
+            seqs.append(sorted(every, key=lambda it: hashlib.md5((it[0] + it[1]).encode()).hexdigest()))
+    pool = multiprocessing.get_context('fork').Pool(core.NPROC)
+    try:
+        res = pool.map(_job, alone_jobs + [([], sq) for sq in seqs])
+    finally:
+        pool.terminate()
+        pool.join()
+    base = {}
+    for (first, then), lines in zip(alone_jobs, res[:len(alone_jobs)]):
+        for it, ln in zip(then, lines):
+            base[(it[0], it[1])] = ln
+    ctx.count('history_processes', len(alone_jobs) + len(seqs))
+    ctx.count('transitions', len(every) * (1 + len(seqs)))
+    reported = set()
+    for o, sq, lines in zip(orders, seqs, res[len(alone_jobs):]):
+        ctx.state_hashes.add(core.h64('order', label, o))
+        for it, ln in zip(sq, lines):
+            b = base[(it[0], it[1])]
+            if ln != b and it[0] not in reported:
+                reported.add(it[0])
+                short = it[0].rsplit('.', 1)[-1]
+                ctx.violation({'signature': sig(short),
+                               'what': '%s: %s input %s... answers %s when only its own class was parsed before, %s in '
+                                       'the %s pass over all classes' % (label, short, it[1][:40], b, ln, o),
+                               'witness': {'kind': 'order_history', 'cls': it[0], 'data': it[1], 'order': o,
+                                           'alone': b, 'in_order': ln}})
+    ctx.sample({'kind': 'order_history', 'label': label, 'inputs': len(every), 'classes': len(names),
+                'orders': list(orders)})
+
+
 def replay_one(w):
     """-> True when the recorded pair still differs."""
     a = run_history([], [w['then']])
